@@ -34,6 +34,7 @@ fn show_err(e: &MpdProtocolError) {
 struct AsyncPipe(Pipe);
 impl tokio::io::AsyncRead for AsyncPipe {
     fn poll_read(mut self: Pin<&mut Self>, _cx: &mut Context<'_>, buf: &mut tokio::io::ReadBuf<'_>) -> Poll<io::Result<()>> {
+        if crate::interrupted_now() { return Poll::Ready(Err(io::Error::new(io::ErrorKind::Interrupted, "interrupted system call"))); }
         let me = &mut self.0;
         me.reads += 1;
         if me.next < me.segs.len() {
@@ -52,7 +53,8 @@ pub fn recv(a: &[String]) {
     // `<n>+`: after an error, receive is called once more (a caller may do that; it must not panic)
     let again = a[2].ends_with('+');
     let max: usize = a[2].trim_end_matches('+').parse().unwrap();
-    let cuts: Vec<usize> = a[3..].iter().map(|c| c.parse().unwrap()).collect();
+    let cuts: Vec<usize> = a[3..].iter().filter(|c| !c.starts_with('i')).map(|c| c.parse().unwrap()).collect();
+    if let Some(k) = a[3..].iter().find_map(|c| c.strip_prefix('i')) { crate::INTERRUPT_AT.store(k.parse().unwrap(), std::sync::atomic::Ordering::SeqCst); }
     let pipe = Pipe { segs: segments(&stream, &cuts), next: 0, out: Vec::new(), reads: 0 };
     if a[0] == "sync" {
         let mut c = match Connection::connect(pipe) {
